@@ -31,8 +31,10 @@ def main(tier):
     nlong = 8 if quick else 300
     longs, lsim = layerb.generate_behaviours("PyDRexC01", "PyDRexC01_long", nlong, 16, SEED + 102)
     chk.add_tlc("PyDRexC01_long(simulate)", lsim, f"{nlong} long single-mineral histories (13 updates, M* 125/200, chi = 0): grains shrink towards zero volume")
+    seeds, sres = layerb.enumerate_behaviours("PyDRexC01", "PyDRexC01_seed", workers=4)
+    chk.add_tlc("PyDRexC01_seed", sres, "every ordered pair of default constructions over seeds {0, 1, 2, 12345} x grain counts x phases: equal (seed, n) must give bit-identical initial textures")
     nshort = len(behs)
-    behs = behs + longs
+    behs = behs + longs + seeds
     events, comp = layerb.run_behaviours(chk, "C01", behs, fcheck=False, dt_of=lambda tid: DTS[tid % len(DTS)] if tid < nshort else 0.4)
     # coverage of the discrete classes actually exercised
     seen = dict(triples=set(), flows=set(), textures=set(), ns=set(), pars=set())
